@@ -156,7 +156,8 @@ class AbsReaderReplay:
         return pre
 
     def run(self, I, scenario, claim_name, pre):
-        code = READER_DRIVER % dict(helpers=HELPERS, dev=rust_bytes(pre["dev"]), cached=pre["cached"], offset=pre["offset"], op=self.op_rust(pre))
+        code = READER_DRIVER % dict(helpers=HELPERS, dev=rust_bytes(pre["dev"]), cached=pre["cached"], offset=pre["offset"], op=self.op_rust(pre),
+                                    fault_at=pre.get("fault_at", -1), shorts=",".join(str(x) for x in pre.get("shorts", [])))
         rc, out = run_rust_test(I.crate_dir, "paged_reader.rs", code)
         kv = parse_kv(out)
         info = dict(pre={k: (len(v) if isinstance(v, bytes) else v) for k, v in pre.items()}, rust=code)
